@@ -73,6 +73,36 @@ theorem iter_double_ended_consistent (s : CBitSet) (hs : CInv s) (sched : List B
   unfold CBitSet.deIter
   rw [deIter_run_spec, iter_eq_members hs]
 
+/-- (C) `BitSet::iter_after(value)` (binary search `Ok` → partial first page through
+`BitPage::iter_after`, NOT filtered by `is_empty`; `Err` → no partial page; follow-on pages
+filtered by the cached `is_empty`) yields exactly the abstract members above `value`. -/
+theorem iter_after_yields_members_above (s : CBitSet) (hs : CInv s) (v : Nat) :
+    s.iterAfter v = s.abs.members.filter (· > v) := by
+  rw [iterAfter_eq hs v]
+
+/-- (C), all of it: forward, backward, `iter_after`, and any `next` / `next_back` schedule. -/
+theorem iter_yields_members (s : CBitSet) (hs : CInv s) :
+    s.iter = s.abs.members ∧ s.iterRev = s.abs.members.reverse ∧
+      (∀ v, s.iterAfter v = s.abs.members.filter (· > v)) ∧
+      ∀ sched : List Bool,
+        (DEIter.run sched s.deIter).1 ++ (DEIter.run sched s.deIter).2.2.rest ++
+          (DEIter.run sched s.deIter).2.1.reverse = s.abs.members :=
+  ⟨(iter_forward_backward s hs).1, (iter_forward_backward s hs).2,
+    iter_after_yields_members_above s hs, iter_double_ended_consistent s hs⟩
+
+/-- the page-level pieces: `BitPage::iter` / `BitPage::iter_after(value)` on a well-formed page -/
+theorem page_iter_yields_members (p : CPage) (hp : CPageOk p) (v : Nat) :
+    p.iterL = pageMembers p.abs.bits ∧
+      p.iterAfterL v = (pageMembers p.abs.bits).filter (fun x => decide (v % 512 < x)) :=
+  ⟨iterL_eq hp, iterAfterL_eq hp v⟩
+
+example :
+    let s := CBitSet.mk [⟨[1, 0, 0, 0, 0, 0, 0, 0], 1⟩, ⟨[6, 0, 0, 0, 0, 0, 0, 2 ^ 63], 3⟩]
+      [(0, 1), (2, 0)] 4
+    s.iterAfter 1 = [2, 511, 1024] ∧ s.iterAfter 511 = [1024] ∧ s.iterAfter 700 = [1024] ∧
+      s.iterAfter 1024 = [] := by
+  decide
+
 example :
     let s := CBitSet.mk [⟨[1, 0, 0, 0, 0, 0, 0, 0], 1⟩, ⟨[6, 0, 0, 0, 0, 0, 0, 2 ^ 63], 3⟩]
       [(0, 1), (2, 0)] 4
